@@ -74,4 +74,17 @@ PROPS = {
         "shards": {"quick": 4, "thorough": 16},
         "no_panic": ["read "],
     },
+    "C18": {
+        "modules": ["Capnp.Props.C18"],
+        "gen": False,
+        "rule": "capability-free struct trees (all list kinds, nested lists, zero-sized structs; 1 in 12 keeps a capability to exercise the "
+                "rejection) encoded in random layouts; Canonicalize's bytes are compared (S) with Spec.Canon.canon of the spec-decoded tree; the "
+                "driver also checks that the canonical bytes decode to an equal value; the harness checks that canonicalising the canonical form "
+                "is the identity, and that another layout, another schema version (padding / list upgrade) and dirty bit-list padding give "
+                "identical bytes. Non-trivial: all; distinct by hash.",
+        "trusted": COMMON_TRUSTED + ["Spec.Canon transcribes the canonicalisation section of the encoding document"],
+        "assumptions": [],
+        "shards": {"quick": 4, "thorough": 16},
+        "no_panic": ["read "],
+    },
 }
